@@ -49,7 +49,8 @@ namespace Kopf.C20
 /-- The root tasks of `spawn_tasks` (default configuration: no liveness endpoint, no `_command`). -/
 inductive Root where
   | stopFlag | ultimate | startupCleanup
-  | coreWatcher   -- (variant `cfg.coreWatched` only) the proposed "core tasks watcher"; a phantom otherwise
+  | coreWatcher   -- the root task in its role "awaits the core tasks" (since /repo ed52a1a: the stop-flag checker, when it
+                  -- ends because of a core task); a phantom in the historical variant `coreWatched := false`
   | daemonKiller | poster | admChain | admValidating | admMutating | admServer
   | resObserver | nsObserver | orchestrator
   deriving DecidableEq, Repr
@@ -172,7 +173,7 @@ inductive Actor where
 
 structure Cfg where
   fixed : Bool   -- the variant with the edge "failed ensemble task → orchestrator"
-  coreWatched : Bool  -- the variant with the edge "failed core task → a root task" (proposed repair of C20-F6)
+  coreWatched : Bool  -- the edge "failed core task → a root task": TRUE is the current tree (since /repo ed52a1a, C20-F6)
   E : Nat        -- settings.queueing.exit_timeout
   W : Nat        -- bound of the peering withdrawal (retries of one PATCH)
   D : Nat        -- bound of one exit stopper: max (cancellation_backoff + cancellation_timeout) over daemons
@@ -544,7 +545,7 @@ def step (cfg : Cfg) (s : State) : Label → Option State
           else none
         | _ => none
       | .coreWatch =>
-        -- `await wait(core_tasks, FIRST_COMPLETED); reraise(done)` — exists only in the variant `coreWatched`
+        -- `stop_flag_checker`: `await wait(flags + core_tasks, FIRST_COMPLETED); await future` (variant `coreWatched`)
         if s.st (.root r) = .running ∧ how = .cancelled ∧ s.creq (.root r) = true then some fin
         else if s.st (.root r) = .running ∧ how = .failed ∧ cfg.coreWatched = true ∧ s.core = .failed then
           some { fin with tFail := s.tFail, failWho := s.failWho }
@@ -754,9 +755,10 @@ def headRestartsExited : Bool := true
     behind (the model still ALLOWS orphans — other helpers may be left behind —, so this is only tied, not used) -/
 def headScanCancelsChildren : Bool := true
 
-/-- a root task awaits the core tasks and re-raises their errors: the edge guarded by `cfg.coreWatched`.
-    FALSE of the current tree (finding C20-F6: a failed credentials retriever is only logged) -/
-def headWatchesCore : Bool := false
+/-- a root task awaits the core tasks and re-raises their errors (and `startup_cleanup_activities` re-raises them only
+    after the cleanup activity): the edge guarded by `cfg.coreWatched`. TRUE of the current tree since /repo ed52a1a
+    (repair of finding C20-F6; before it a failed credentials retriever was only logged) -/
+def headWatchesCore : Bool := true
 
 /-- the configuration of the model of the current tree -/
 def headCfg (e w d c h : Nat) : Cfg :=
